@@ -310,9 +310,56 @@ def global_rules(sm, rep, tier):
     a = fs.node.args
     var = a.args[0].arg
     env = {}
-    for nm, d in zip([x.arg for x in a.args][len(a.args) - len(a.defaults):], a.defaults):
+    pnames = [x.arg for x in a.args]
+    for nm, d in zip(pnames[len(a.args) - len(a.defaults):], a.defaults):
         if isinstance(d, ast.Constant):
-            env[nm] = Fraction(repr(d.value))
+            env[nm] = Fraction(int(d.value)) if isinstance(d.value, bool) else Fraction(repr(d.value))
+    # every call site that passes more than the field (a threshold, a flag): the guard is analysed under that binding as well -
+    # positional arguments land in the parameters in order, whatever the caller meant
+    def _const_of(node, fnode):
+        if isinstance(node, ast.Constant) and isinstance(node.value, (int, float, bool)):
+            return Fraction(int(node.value)) if isinstance(node.value, bool) else Fraction(repr(node.value))
+        if isinstance(node, ast.UnaryOp) and isinstance(node.op, ast.USub):
+            v = _const_of(node.operand, fnode)
+            return None if v is None else -v
+        if isinstance(node, ast.Attribute) and node.attr in ('eps', 'tiny') and isinstance(node.value, ast.Call) and ast.unparse(node.value.func) in ('np.finfo', 'numpy.finfo'):
+            return Fraction(1, 2 ** 52) if node.attr == 'eps' else Fraction(1, 2 ** 1022)
+        if isinstance(node, ast.Name):
+            defs = [x.value for x in ast.walk(fnode) if isinstance(x, ast.Assign) and len(x.targets) == 1 and isinstance(x.targets[0], ast.Name) and x.targets[0].id == node.id]
+            if len(defs) == 1:
+                return _const_of(defs[0], fnode)
+        return None
+    bindings = {(): ('default arguments', env)}
+    for fname_, fnfi_ in sm.module('advection').functions.items():
+        for c_ in ast.walk(fnfi_.node):
+            if isinstance(c_, ast.Call) and isinstance(c_.func, ast.Name) and c_.func.id == '_fsign' and (len(c_.args) > 1 or c_.keywords):
+                e2 = dict(env)
+                desc = []
+                for k_, arg in enumerate(c_.args[1:], start=1):
+                    val = _const_of(arg, fnfi_.node)
+                    if k_ >= len(pnames) or val is None:
+                        raise AnalysisError(f"_fsign call at advection.py:{c_.lineno}: argument {ast.unparse(arg)} is not a resolvable constant")
+                    e2[pnames[k_]] = val
+                    desc.append(f"{pnames[k_]}={ast.unparse(arg)}")
+                for kw in c_.keywords:
+                    val = _const_of(kw.value, fnfi_.node)
+                    if val is None or kw.arg not in pnames:
+                        raise AnalysisError(f"_fsign call at advection.py:{c_.lineno}: keyword {kw.arg} is not a resolvable constant")
+                    e2[kw.arg] = val
+                    desc.append(f"{kw.arg}={ast.unparse(kw.value)}")
+                bindings[tuple(sorted(e2.items()))] = (f"{fname_}: _fsign(.., {', '.join(desc)})", e2)
+    for bkey, (bdesc, benv) in bindings.items():
+        if bkey == ():
+            continue
+        try:
+            gb = P.pw_from_ast(P.inlined_return(fs.node), benv, var)
+        except (AnalysisError, DivZero) as e:
+            raise AnalysisError(f"_fsign under the binding of {bdesc} is not analysable: {e}")
+        zb = [f"({lo},{hi})" for lo, hi, p in gb.intervals() if not p.n or P.count_roots_open(p.n, lo, hi) != 0]
+        zb += [f"x={bk}" for bk, v in zip(gb.breaks, gb.points) if v == NAN or v == 0]
+        rep.ob('F8', f"advection._fsign/call-site[{bdesc.split(':')[0]}]", not zb,
+               f"with the arguments of {bdesc} the guard returns 0 / is undefined on {zb}: the gradient ratio divides by it" if zb
+               else f"with the arguments of {bdesc} the guard is total and non-zero", fs.loc())
     try:
         g = P.pw_from_ast(P.inlined_return(fs.node), env, var)
         zeros = []
